@@ -8,7 +8,8 @@ THEOREMS = ['Tbox.C10.C10_stream', 'Tbox.C10.C10_per_thread_order', 'Tbox.C10.C1
             'Tbox.C10.C10_blocks_wellformed', 'Tbox.C10.C10_buffers_bounded', 'Tbox.C10.C10_cleanup_flushes',
             'Tbox.C10.C10_cleanup_terminates', 'Tbox.C10.C10_lock_discipline', 'Tbox.C10.C10_footprint',
             'Tbox.C10.C10_stop_unlocked_counterexample', 'Tbox.C10.C10_cleanup_flushes_needs_quiescence', 'Tbox.C10.C10_blocks_shaped', 'Tbox.C10.C10_observable_accepted',
-            'Tbox.C10.C10_reconstruction_certified', 'Tbox.C10.C10_complete', 'Tbox.C10.blockRule_pack', 'Tbox.C10.realize', 'Tbox.C10.C10_reinit_fresh', 'Tbox.C10.stuck_after_exit',
+            'Tbox.C10.C10_reconstruction_certified', 'Tbox.C10.C10_complete', 'Tbox.C10.blockRule_pack', 'Tbox.C10.realize', 'Tbox.C10.C10_sink_may_append',
+            'Tbox.C10.C10_nested_backpressure_self_deadlock', 'Tbox.C10.C10_reinit_fresh', 'Tbox.C10.stuck_after_exit',
             'Tbox.C10.C10_late_append_can_block_forever', 'Tbox.C10.Spec.parse_sound', 'Tbox.C10.exec_inv']
 SOURCES = ['modules/util/async_pipe.cpp']
 # tsan: the property includes data-race freedom; ThreadSanitizer (halt_on_error) turns a race in a case into CRASH tsan:data race.
@@ -32,10 +33,12 @@ ASSUMPTIONS = ['configuration accepted by initialize(): buff_size >= 1, 1 <= buf
                'no append is in flight when cleanup() begins and none starts afterwards (C10_cleanup_flushes / _terminates hypothesis `late = false`); '
                'an append concurrent with cleanup may lose its data or block for ever — outside the statement, noted in the report',
                'liveness needs a fair scheduler for the back-end thread and a timed wait that eventually times out',
-               'one pipe lifecycle initialize()..cleanup(); the sink callback does not call into the pipe']
+               're-entrant use: the sink callback may append to the same pipe, but at most what fits without waiting for a buffer — a nested '
+               'append that hits back-pressure waits for its own thread (C10_nested_backpressure_self_deadlock: by design, not a defect); '
+               'nested appends made after cleanup began are late appends']
 RULE = ('cases = pipe lifecycles: config (buffer size 1..4096, (min,max) in {(1,1),(1,2),(2,2),(2,10),(3,5),(1,64)}, interval 1..50 ms) x 1..8 '
         'real producer threads appending tagged length-prefixed records (smaller than / equal to / many times a buffer, zero-size, '
-        'lock+lockless groups) x PRNG-seeded delay schedule at the interposed lock/wait points x slow sink; cleanup at quiescent points; several initialize..cleanup lifecycles on one object; `fillhold` probes (live buffer count with the sink held); '
+        'lock+lockless groups) x PRNG-seeded delay schedule at the interposed lock/wait points x slow sink; cleanup at quiescent points; several initialize..cleanup lifecycles on one object; re-entrant sinks (`echo`: the callback appends acks to the same pipe on every n-th / every timed-flush block); `fillhold` probes (live buffer count with the sink held); '
         'non-trivial = at least 2 producers really interleaved, or a timed flush of a partial buffer, or real back-pressure '
         '(a producer waited for a buffer), or an append spanning several buffers; distinct = distinct op text')
 
@@ -57,6 +60,25 @@ def gen_multi(rng):
             k = one.index('run') + 1
             one.insert(k, 'fillhold %d %d' % (rng.randrange(8), min(20000, rng.choice([0, size, (mx + 2) * size, (mx + 3) * size + 7]))))
         ops += one
+    return ops
+
+
+def gen_echo(rng):
+    """re-entrant use: the sink callback appends an ack record (pseudo-producer 8) to the same pipe on every n-th block or on
+    every timed-flush block; ample buffers (max 64) and little data so that the nested append never has to wait for a buffer"""
+    size = rng.choice([32, 64, 100, 256])
+    mn, iv = rng.choice([1, 2]), rng.choice([1, 2, 3, 5])
+    ops = ['init %d %d 64 %d' % (size, mn, iv),
+           'perturb %d %d 0' % (rng.randrange(1, 10 ** 9), rng.choice([0, 0, 50, 200]))]
+    mode = rng.choice(['every', 'every', 'partial', 'partial', 'never'])
+    ops.append('echo %s %d %d' % (mode, rng.choice([1, 1, 2, 3, 5]), rng.choice([0, 1, 4, 20, size - 6, size - 5])))
+    for ph in range(rng.choice([1, 2, 3])):
+        for tid in rng.sample(range(7), rng.choice([1, 1, 2, 3])):
+            toks = [str(rng.choice([0, 3, size - 6, size - 5, size - 4, size, 2 * size + 1])) for _ in range(rng.choice([1, 2, 4]))]
+            ops.append('prod %d %d %s' % (tid, rng.choice([0, 0, 200]), ','.join(toks)))
+        ops.append('run')
+        ops.append('sleep %d' % rng.choice([0, iv + 2, 3 * iv + 2, 20]))
+    ops.append('cleanup')
     return ops
 
 
@@ -134,6 +156,12 @@ def gen(rng, tier):
     if tier != 'quick':
         for _ in range(6):
             yield ['late %d %d %d' % (rng.choice([1, 4, 64, 1000]), rng.choice([1, 2, 10]), rng.choice([2, 30, 150]))]
+    # directed: re-entrant sink — ack on a buffer-full block, then on a timed-flush block (smaller than a buffer), then cleanup
+    yield ['init 64 2 16 5', 'echo every 1 0', 'prod 0 0 59', 'run', 'sleep 25', 'prod 0 0 0', 'run', 'sleep 25', 'cleanup']
+    yield ['init 32 1 64 2', 'echo partial 1 4', 'prod 3 0 3', 'run', 'sleep 10', 'prod 7 0 1', 'run', 'echo every 1 1', 'cleanup',
+           'init 8 1 64 1', 'echo never 1 1', 'echo every 0 1', 'echo sometimes 1 1', 'echo every 1', 'prod 7 0 1', 'echo every 2 3', 'run', 'cleanup']
+    for _ in range(8 if tier == 'quick' else 100):
+        yield gen_echo(rng)
     for _ in range(n):
         yield gen_case(rng)
     for _ in range(n // 4):
@@ -142,7 +170,7 @@ def gen(rng, tier):
 
 def nontrivial(ops, model_lines):
     tags = ' '.join(l for l in model_lines if l.startswith('B '))
-    return 1 if any(t in tags for t in ('interleaved', 'timed-flush', 'real-backpressure', 'append>buffer')) else None
+    return 1 if any(t in tags for t in ('interleaved', 'timed-flush', 'real-backpressure', 'append>buffer', 'nested-append')) else None
 
 
 def fingerprint(ops, d):
